@@ -83,6 +83,25 @@ def seeds_for(name, quick, seed):
     return out
 
 
+#: (character, the lower-cased ASCII text its upper() / lower() / casefold() denotes)
+CASEMAP = (("\ufb00", "ff"), ("\ufb01", "fi"), ("\ufb02", "fl"), ("\ufb03", "ffi"), ("\ufb04", "ffl"), ("\ufb05", "st"), ("\ufb06", "st"),
+           ("\u00df", "ss"), ("\u017f", "s"), ("\u0131", "i"), ("\u212a", "k"), ("\u0130", "i"))
+
+
+def casemap_mutations(h):
+    out = []
+    low = h.lower()
+    for c, img in CASEMAP:
+        start = 0
+        while True:
+            i = low.find(img, start)
+            if i < 0:
+                break
+            out.append((f"casemap@{i}:{ord(c):x}", h[:i] + c + h[i + len(img):]))
+            start = i + 1
+    return out
+
+
 def mutations(h, sigma):
     """ordered list of (label, mutant) -- never equal to h"""
     out = []
@@ -125,6 +144,9 @@ def mutations(h, sigma):
                            ("empty", ""), ("huge", "1" + "0" * 30), ("hugedigits", "9" * 5000), ("zero", "0"), ("hex", hex(v)), ("space", " " + num)):
             if rep != num:
                 out.append((f"num@{a}:{label}", h[:a] + rep + h[b:]))
+    # characters whose str.upper() / str.lower() is a longer or other ASCII text (ligatures, long s, dotless i, Kelvin
+    # sign, sharp s): a parser that case-normalises before validating turns them into ordinary hex / letters
+    out += casemap_mutations(h)
     for label, s in (("empty", ""), ("blank", " "), ("nul", "\x00"), ("dollar", "$"), ("dollars", "$$$"), ("x", "x"),
                      ("twice", h + h), ("rev", h[::-1]), ("upper", h.upper()), ("lower", h.lower()),
                      ("nl", h + "\n"), ("sp", h + " "), ("lead_sp", " " + h), ("crlf", h + "\r\n"), ("tab", h + "\t")):
@@ -269,6 +291,11 @@ def allowed_to_verify(name, seedhash, label, mutant):
             return True
         diff = [i for i in range(len(seedhash)) if seedhash[i] != mutant[i]]
         return all(_in_prefix(seedhash, i) for i in diff)
+    # R2': a case-mapping look-alike inside the case-insensitive identifying prefix is a re-spelling of the prefix
+    if label.startswith("casemap@"):
+        i = int(label[8:].split(":")[0])
+        if _in_prefix(seedhash, i) or (name == "oracle11" and i == 0):  # oracle11: the constant 'S:' label
+            return True
     # R2: one position changed, same length
     i = _single_diff(seedhash, mutant)
     if i is not None:
@@ -326,7 +353,7 @@ def allowed_to_verify(name, seedhash, label, mutant):
 OK_EXC = (ValueError, TypeError)
 
 
-def probe(name, H, cx, seedhash, label, mutant, form, mode):
+def probe(name, H, cx, seedhash, label, mutant, form, mode, PW=PW):
     """drive identify / verify / needs_update with one mutant; returns violations"""
     out = []
     arg = mutant
@@ -440,6 +467,60 @@ def eval_case(case):
     return []
 
 
+def casemap_seed(name, st, cx, n):
+    H = HS.handler(name)
+    Hc = H.using(**st) if st else H
+    pw = f"{PW}{n}"
+    with _pinned_rng():
+        return H, pw, Hc.hash(pw, **cx)
+
+
+def eval_casemap(case):
+    """part casemap: the seed is the hash of the n-th numbered password (chosen because its text contains the ASCII
+    image of a case-mapping look-alike); one look-alike mutant of it"""
+    if case.get("mode") == "O" and __debug__:
+        return core.call_in_child("mc.checks.c08", "eval_casemap", case, optimized=True)
+    name = case["hasher"]
+    H, pw, seedhash = casemap_seed(name, case["settings"], case["ctx"], case["n"])
+    for label, mutant in casemap_mutations(seedhash):
+        if label == case["label"]:
+            return probe(name, H, case["ctx"], seedhash, label, mutant, case["form"], case.get("mode", "default"), PW=pw)
+    return []
+
+
+def work_casemap(task):
+    """every look-alike character x the first numbered password (of 48) whose hash contains its image outside the
+    identifying prefix, per hasher and seed settings"""
+    acc = Acc()
+    mode = "default" if __debug__ else "O"
+    name, st, cx = task["hasher"], task["settings"], task["ctx"]
+    covered = set()
+    for n in range(48):
+        if len(covered) == len(CASEMAP):
+            break
+        try:
+            H, pw, seedhash = casemap_seed(name, st, cx, n)
+        except Exception:  # noqa: BLE001
+            break
+        if not isinstance(seedhash, str):
+            break
+        for label, mutant in casemap_mutations(seedhash):
+            ch = label.split(":")[1]
+            i = int(label[8:].split(":")[0])
+            if ch in covered or _in_prefix(seedhash, i):
+                continue
+            covered.add(ch)
+            for form in task["forms"]:
+                acc.ev()
+                case = {"part": "casemap", "hasher": name, "settings": st, "ctx": cx, "n": n, "label": label, "form": form, "mode": mode}
+                for key, desc in probe(name, H, cx, seedhash, label, mutant, form, mode, PW=pw):
+                    acc.violation(key, desc, case)
+            acc.cls(name, "casemap", ch, mode)
+    acc.axis("mutation_kind", "casemap_numbered_passwords")
+    acc.outcome((mode, "casemap", "ok" if not acc.violations else "viol"))
+    return acc
+
+
 def _pinned_rng():
     from mc import env
 
@@ -489,12 +570,16 @@ def probe_context(ctx, scheme, seedhash, label, mutant, form, mode):
 
 
 def replay(case):
+    if case.get("part") == "casemap":
+        return eval_casemap(case)
     return eval_case(case)
 
 
 # ---------------------------------------------------------------------------
 def work(task):
     """all mutants of one seed hash (one hasher, one settings entry) in the current interpreter mode"""
+    if task.get("part") == "casemap":
+        return work_casemap(task)
     acc = Acc()
     mode = "default" if __debug__ else "O"
     name = task["hasher"]
@@ -581,6 +666,14 @@ def build_tasks(quick, seed):
             elif slow:
                 t["stride"] = 3 if quick else 1
             tasks.append(t)
+    # part casemap: numbered passwords until the hash text contains the image of every case-mapping look-alike
+    for name in HS.usable_names():
+        if HS.SLOW.get(name, 0) >= 2:
+            continue
+        seeds = seeds_for(name, True, seed)
+        if seeds:
+            si, st, cx, _h = seeds[0]
+            tasks.append({"part": "casemap", "hasher": name, "settings": st, "ctx": cx, "si": si, "sigma": sigma, "forms": ("str", "bytes")})
     for name in LIBPASS:
         for si in range(len(LIBPASS[name])):
             tasks.append({"hasher": name, "si": si, "sigma": sigma, "forms": ("str", "bytes") if si == 0 else ("str",)})
